@@ -277,3 +277,97 @@ def deref_deep(f, expr, depth: int = 3):
       return node
 
   return T(depth).visit(copy.deepcopy(expr))
+
+
+_STABLE_PARAM_ATTRS = {'kind', 'default', 'empty', 'name', 'annotation'}
+_STORE_ATTRS = {'__arguments__', '__argument_tags__'}
+
+
+def _stable_test(e) -> bool:
+  """A truth value computed from immutable facts only: comparisons of names,
+  constants and attributes of inspect.Parameter objects (kind, default,
+  empty, name, the kind constants)."""
+  for n in ast.walk(e):
+    if isinstance(n, (ast.Compare, ast.BoolOp, ast.UnaryOp, ast.Name,
+                      ast.Constant, ast.Tuple, ast.Load, ast.cmpop,
+                      ast.boolop, ast.unaryop)):
+      continue
+    if isinstance(n, ast.Attribute) and isinstance(n.value, ast.Name) and (
+        n.attr in _STABLE_PARAM_ATTRS or n.attr.isupper()):
+      continue
+    return False
+  return isinstance(e, (ast.Compare, ast.BoolOp, ast.UnaryOp))
+
+
+def _store_alias(e) -> bool:
+  """`<name>.__arguments__`: another name for the same dict object."""
+  return isinstance(e, ast.Attribute) and e.attr in _STORE_ATTRS and isinstance(
+      e.value, ast.Name)
+
+
+def stable_view(f):
+  """A view of `f` in which locals that merely name (a) a truth value computed
+  from immutable parameter facts (`positional_only = p.kind ==
+  p.POSITIONAL_ONLY`) or (b) the argument store of an object (`arguments =
+  node.__arguments__`) are written out where they are used.  Both read the
+  same at the assignment and at every later use: Parameter objects are
+  immutable, and the store is one dict that is edited in place.  Rules that
+  classify branches by such tests look at this view."""
+  import copy  # pylint: disable=g-import-not-at-top
+  if f.is_lambda:
+    return f
+  v = getattr(f, '_stable_view', None)
+  if v is not None:
+    return v
+  node = copy.deepcopy(f.node)
+  changed = False
+  for _ in range(3):
+    stores = {}
+    for n in walk_function(node):
+      if isinstance(n, ast.Name) and isinstance(n.ctx, (ast.Store, ast.Del)):
+        stores[n.id] = stores.get(n.id, 0) + 1
+    subst = {}
+    drop = []
+    for st in walk_function(node):
+      if isinstance(st, ast.Assign) and len(st.targets) == 1 and isinstance(
+          st.targets[0], ast.Name):
+        x = st.targets[0].id
+        if stores.get(x) == 1 and x not in f.params and (
+            _stable_test(st.value) or _store_alias(st.value)) and not any(
+                isinstance(y, ast.Name) and stores.get(y.id, 0) > 1
+                for y in ast.walk(st.value)):
+          subst[x] = st.value
+          drop.append(st)
+    if not subst:
+      break
+    changed = True
+
+    class T(ast.NodeTransformer):
+
+      def visit_Name(self, n):
+        if isinstance(n.ctx, ast.Load) and n.id in subst:
+          return ast.copy_location(copy.deepcopy(subst[n.id]), n)
+        return n
+
+      def generic_visit(self, n):
+        for fld, old in ast.iter_fields(n):
+          if isinstance(old, list):
+            new = [x for x in old if not any(x is d for d in drop)]
+            if len(new) != len(old):
+              if not new and fld in ('body',):
+                new = [ast.copy_location(ast.Pass(), old[0])]
+              setattr(n, fld, new)
+        return super().generic_visit(n)
+
+    T().visit(node)
+    ast.fix_missing_locations(node)
+  if not changed:
+    f._stable_view = f
+    return f
+  v = copy.copy(f)
+  v.node = node
+  v._locals = None
+  v._stable_view = v
+  v._normal_form = None
+  f._stable_view = v
+  return v
